@@ -246,7 +246,7 @@ async fn pair_traffic(args: &Args, multi: bool, relay: bool, library_defaults: b
 /// test must answer max_datagram_size() sanely and honour the contract around the boundary.
 async fn limit_case(role: Role, limit: Option<usize>, burn: usize, rep: &mut Report) {
     let ctx = format!("{role:?} peer-limit={limit:?} session-id={}", 4 * burn);
-    rep.eval(format!("limit|{role:?}|{}|sid={}B", match limit { None => "unsupported".into(), Some(n) if n <= 70 => format!("{n}"), Some(n) => format!("big{n}") }, rv::size(burn as u64)));
+    rep.eval(format!("limit|{role:?}|{}|sid={}B|quarter={}B", match limit { None => "unsupported".into(), Some(n) if n <= 70 => format!("{n}"), Some(n) => format!("big{n}") }, rv::size(4 * burn as u64), rv::size(burn as u64)));
     let mut script = Script::plain(role);
     script.pause = ms(1);
     script.transport = Some(Arc::new(move || {
@@ -376,6 +376,15 @@ pub fn run(args: &Args) -> Report {
             // 2-byte quarter stream id: session id 256 (raw client burns 64 bidi streams)
             if matches!(l, Some(n) if [3usize, 10, 11, 12, 1200].contains(n)) || (args.thorough && l.map(|n| n % 5 == 0).unwrap_or(false)) {
                 jobs.push((Role::Server, *l, 64));
+            }
+            // session ids whose own varint is longer than the quarter id's (64..=252: 2 bytes vs 1;
+            // 16384..: 4 vs 2): a size computed from the wrong one is off by the difference
+            if matches!(l, Some(n) if [9usize, 10, 1200, 65535].contains(n)) {
+                jobs.push((Role::Server, *l, 16));
+                jobs.push((Role::Server, *l, 63));
+            }
+            if args.thorough && matches!(l, Some(1200)) {
+                jobs.push((Role::Server, *l, 4096));
             }
         }
         for chunk in jobs.chunks(10) {
